@@ -382,6 +382,8 @@ def _rnd_jobs(tier, seed):
             for fd in (False, True):
                 if L * W > 2 and m > 2:
                     continue
+                if L * W > 3 and fd:
+                    continue        # 2x2 with force-down does not finish within the job limit (measured > 25 min)
                 jobs.append(dict(L=L, W=W, m=m, fd=fd, _cost=(m + 1) ** (L * W), _timeout_s=1500))
     return jobs
 
@@ -390,7 +392,7 @@ def _rnd_jobs(tier, seed):
          stubs=["random -> contract stub: stream = uninterpreted function of (seed, position), random() in (0,1), choices/randrange in range; "
                 "a counterexample is replayed natively on the real code with the stream values the solver chose, then with the real PRNG on 48 seeds",
                 "math.log -> monotone uninterpreted function with ln 1 = 0 and ln 2^-(m+1) = -(m+1) ln 2; math.floor -> k <= x < k+1"],
-         bounds="boards up to 1x3 / 2x2 (quick 2 tiles), max_reward in {1,2,3,4,6,8} (quick {1,2,6}), ANY seed >= 0 and ANY loose-tile "
+         bounds="boards up to 1x3 (and 2x2 without force-down; quick: 2 tiles), max_reward in {1,2,3,4,6,8} (quick {1,2,6}; 3-4 tiles: {1,2}), ANY seed >= 0 and ANY loose-tile "
                 "probability in (0,1) (symbolic), both force-down settings",
          assumes=["random.random() never returns exactly 0.0 (then the reward would be max_reward+1; probability 2^-53 per tile)",
                   "uniformity of the PRNG (flag frequency = requested probability follows from flag <=> own uniform draw < p)"],
